@@ -46,6 +46,7 @@ package interp // import "golang.org/x/tools/go/ssa/interp"
 
 import (
 	"fmt"
+	"sync"
 	"go/token"
 	"go/types"
 	"log"
@@ -81,7 +82,7 @@ type methodSet map[string]*ssa.Function
 type interpreter struct {
 	osArgs             []value                // the value of os.Args
 	prog               *ssa.Program           // the SSA program
-	globals            map[*ssa.Global]*value // addresses of global variables (immutable)
+	dynCells           []value                // per-path globals of the dynamic (tengo) packages
 	mode               Mode                   // interpreter options
 	reflectPackage     *ssa.Package           // the fake reflect package
 	errorMethods       methodSet              // the method set of reflect.error, which implements the error interface.
@@ -102,10 +103,12 @@ type interpreter struct {
 	onceDone map[*value]bool
 	hooks    map[string]value // harness-registered callbacks (vf.OnPoll etc.)
 	curFr      *frame
+	envPool    map[*ssa.Function][][]value
 	unwinding  bool
 	panicStack string
 	inHook     bool
 	guardLimit []int64
+	guardDecLimit []int
 	lastGuard  string
 }
 
@@ -121,7 +124,8 @@ type frame struct {
 	caller           *frame
 	fn               *ssa.Function
 	block, prevBlock *ssa.BasicBlock
-	env              map[ssa.Value]value // dynamic values of SSA variables
+	env              []value // dynamic values of SSA variables, indexed by info.index
+	info             *fnInfo
 	locals           []value
 	defers           *deferred
 	result           value
@@ -141,15 +145,17 @@ func (fr *frame) get(key ssa.Value) value {
 	case *ssa.Const:
 		return constValue(key)
 	case *ssa.Global:
-		if r, ok := fr.i.globals[key]; ok {
-			return r
+		if idx, ok := fr.i.eng.dynIndex[key]; ok {
+			return &fr.i.dynCells[idx]
 		}
 		if r, ok := fr.i.eng.frozen[key]; ok {
 			return r
 		}
 	}
-	if r, ok := fr.env[key]; ok {
-		return r
+	if idx, ok := fr.info.index[key]; ok {
+		if r := fr.env[idx]; r != nil {
+			return r
+		}
 	}
 	panic(fmt.Sprintf("get: no value for %T: %v", key, key.Name()))
 }
@@ -227,35 +233,35 @@ func visitInstr(fr *frame, instr ssa.Instruction) continuation {
 		// no-op
 
 	case *ssa.UnOp:
-		fr.env[instr] = unop(i, instr, fr.get(instr.X))
+		fr.set(instr, unop(i, instr, fr.get(instr.X)))
 
 	case *ssa.BinOp:
-		fr.env[instr] = binop(i, instr.Op, instr.X.Type(), fr.get(instr.X), fr.get(instr.Y))
+		fr.set(instr, binop(i, instr.Op, instr.X.Type(), fr.get(instr.X), fr.get(instr.Y)))
 
 	case *ssa.Call:
 		fn, args := prepareCall(fr, &instr.Call)
-		fr.env[instr] = call(fr.i, fr, instr.Pos(), fn, args)
+		fr.set(instr, call(fr.i, fr, instr.Pos(), fn, args))
 
 	case *ssa.ChangeInterface:
-		fr.env[instr] = fr.get(instr.X)
+		fr.set(instr, fr.get(instr.X))
 
 	case *ssa.ChangeType:
-		fr.env[instr] = fr.get(instr.X) // (can't fail)
+		fr.set(instr, fr.get(instr.X)) // (can't fail)
 
 	case *ssa.Convert:
-		fr.env[instr] = conv(i, instr.Type(), instr.X.Type(), fr.get(instr.X))
+		fr.set(instr, conv(i, instr.Type(), instr.X.Type(), fr.get(instr.X)))
 
 	case *ssa.SliceToArrayPointer:
-		fr.env[instr] = sliceToArrayPointer(instr.Type(), instr.X.Type(), fr.get(instr.X))
+		fr.set(instr, sliceToArrayPointer(instr.Type(), instr.X.Type(), fr.get(instr.X)))
 
 	case *ssa.MakeInterface:
-		fr.env[instr] = iface{t: instr.X.Type(), v: fr.get(instr.X)}
+		fr.set(instr, iface{t: instr.X.Type(), v: fr.get(instr.X)})
 
 	case *ssa.Extract:
-		fr.env[instr] = fr.get(instr.Tuple).(tuple)[instr.Index]
+		fr.set(instr, fr.get(instr.Tuple).(tuple)[instr.Index])
 
 	case *ssa.Slice:
-		fr.env[instr] = slice(i, fr.get(instr.X), fr.get(instr.Low), fr.get(instr.High), fr.get(instr.Max))
+		fr.set(instr, slice(i, fr.get(instr.X), fr.get(instr.Low), fr.get(instr.High), fr.get(instr.Max)))
 
 	case *ssa.Return:
 		switch len(instr.Results) {
@@ -321,21 +327,29 @@ func visitInstr(fr *frame, instr ssa.Instruction) continuation {
 		i.spawn(instr.Pos(), fn, args)
 
 	case *ssa.MakeChan:
-		fr.env[instr] = i.makeChan(int(asInt64(i.concreteInt(fr.get(instr.Size), "chan size"))))
+		fr.set(instr, i.makeChan(int(asInt64(i.concreteInt(fr.get(instr.Size), "chan size")))))
 
 	case *ssa.Alloc:
 		var addr *value
 		if instr.Heap {
 			// new
 			addr = new(value)
-			fr.env[instr] = addr
+			fr.set(instr, addr)
 		} else {
 			// local
-			addr = fr.env[instr].(*value)
+			addr = fr.env[fr.info.index[instr]].(*value)
 		}
 		*addr = zero(deref(instr.Type()))
 
 	case *ssa.MakeSlice:
+		for _, sz := range []ssa.Value{instr.Len, instr.Cap} {
+			if s, ok := fr.get(sz).(*sym); ok {
+				// negative sizes panic; fork on that before case-splitting the rest
+				if i.branch(i.ctx.Bin(smt.OBVSLT, s.t, i.ctx.BVConst(0, s.t.Sort.W))) {
+					panic(runtimeError("runtime error: makeslice: len out of range"))
+				}
+			}
+		}
 		c := asInt64(i.concreteInt(fr.get(instr.Cap), "make cap"))
 		l := asInt64(i.concreteInt(fr.get(instr.Len), "make len"))
 		if l < 0 || c < l {
@@ -349,22 +363,22 @@ func visitInstr(fr *frame, instr ssa.Instruction) continuation {
 		for i := range slice {
 			slice[i] = zero(tElt)
 		}
-		fr.env[instr] = slice[:l]
+		fr.set(instr, slice[:l])
 
 	case *ssa.MakeMap:
-		fr.env[instr] = makeMap(instr.Type().Underlying().(*types.Map).Key(), 0)
+		fr.set(instr, makeMap(instr.Type().Underlying().(*types.Map).Key(), 0))
 
 	case *ssa.Range:
-		fr.env[instr] = rangeIter(i, fr.get(instr.X), instr.X.Type())
+		fr.set(instr, rangeIter(i, fr.get(instr.X), instr.X.Type()))
 
 	case *ssa.Next:
-		fr.env[instr] = fr.get(instr.Iter).(iter).next()
+		fr.set(instr, fr.get(instr.Iter).(iter).next())
 
 	case *ssa.FieldAddr:
-		fr.env[instr] = &(*fr.get(instr.X).(*value)).(structure)[instr.Field]
+		fr.set(instr, &(*fr.get(instr.X).(*value)).(structure)[instr.Field])
 
 	case *ssa.Field:
-		fr.env[instr] = fr.get(instr.X).(structure)[instr.Field]
+		fr.set(instr, fr.get(instr.X).(structure)[instr.Field])
 
 	case *ssa.IndexAddr:
 		x := fr.get(instr.X)
@@ -382,26 +396,26 @@ func visitInstr(fr *frame, instr ssa.Instruction) continuation {
 			t := i.boundsCheck(s, len(base))
 			et := deref(instr.Type())
 			if _, ok := scalarKind(et); ok && len(base) <= 4096 {
-				fr.env[instr] = &symptr{base: base, idx: t, et: et}
+				fr.set(instr, &symptr{base: base, idx: t, et: et})
 			} else {
 				j := i.concretize(&sym{k: types.Int64, t: t}, i.eng.cfg.CaseCap, "index")
-				fr.env[instr] = &base[j]
+				fr.set(instr, &base[j])
 			}
 		} else {
 			j := asInt64(idx)
 			if j < 0 || j >= int64(len(base)) {
 				panic(runtimeError(fmt.Sprintf("runtime error: index out of range [%d] with length %d", j, len(base))))
 			}
-			fr.env[instr] = &base[j]
+			fr.set(instr, &base[j])
 		}
 
 	case *ssa.Index:
 		x := fr.get(instr.X)
 		idx := fr.get(instr.Index)
-		fr.env[instr] = i.index(x, idx, instr.Type())
+		fr.set(instr, i.index(x, idx, instr.Type()))
 
 	case *ssa.Lookup:
-		fr.env[instr] = lookup(i, instr, fr.get(instr.X), fr.get(instr.Index))
+		fr.set(instr, lookup(i, instr, fr.get(instr.X), fr.get(instr.Index)))
 
 	case *ssa.MapUpdate:
 		m := fr.get(instr.Map)
@@ -418,20 +432,20 @@ func visitInstr(fr *frame, instr ssa.Instruction) continuation {
 		}
 
 	case *ssa.TypeAssert:
-		fr.env[instr] = typeAssert(fr.i, instr, fr.get(instr.X).(iface))
+		fr.set(instr, typeAssert(fr.i, instr, fr.get(instr.X).(iface)))
 
 	case *ssa.MakeClosure:
 		var bindings []value
 		for _, binding := range instr.Bindings {
 			bindings = append(bindings, fr.get(binding))
 		}
-		fr.env[instr] = &closure{instr.Fn.(*ssa.Function), bindings}
+		fr.set(instr, &closure{instr.Fn.(*ssa.Function), bindings})
 
 	case *ssa.Phi:
 		log.Fatal("unreachable") // phis are processed at block entry
 
 	case *ssa.Select:
-		fr.env[instr] = i.doSelect(fr, instr)
+		fr.set(instr, i.doSelect(fr, instr))
 
 	default:
 		panic(fmt.Sprintf("unexpected instruction: %T", instr))
@@ -520,7 +534,7 @@ func callSSA(i *interpreter, caller *frame, callpos token.Pos, fn *ssa.Function,
 		}
 		if fn.Pkg != nil && fn.Name() == "init" && fn.Signature.Recv() == nil && fn == fn.Pkg.Func("init") {
 			if i.eng.frozenPkg[fn.Pkg] {
-				if !i.booting || !frozenInitAllow[fn.Pkg.Pkg.Path()] {
+				if !i.booting || !(frozenInitAllow[fn.Pkg.Pkg.Path()] || strings.HasPrefix(fn.Pkg.Pkg.Path(), "verif/")) {
 					return nil
 				}
 			}
@@ -550,18 +564,25 @@ func callSSA(i *interpreter, caller *frame, callpos token.Pos, fn *ssa.Function,
 		panic("interp requires ssa.BuilderMode to include InstantiateGenerics to execute generics")
 	}
 
-	fr.env = make(map[ssa.Value]value)
+	fr.info = infoOf(fn)
+	if pool := i.envPool[fn]; len(pool) > 0 {
+		// reuse: SSA definitions dominate their uses, so stale entries are never read
+		fr.env = pool[len(pool)-1]
+		i.envPool[fn] = pool[:len(pool)-1]
+	} else {
+		fr.env = make([]value, fr.info.n)
+	}
 	fr.block = fn.Blocks[0]
 	fr.locals = make([]value, len(fn.Locals))
 	for i, l := range fn.Locals {
 		fr.locals[i] = zero(deref(l.Type()))
-		fr.env[l] = &fr.locals[i]
+		fr.set(l, &fr.locals[i])
 	}
 	for i, p := range fn.Params {
-		fr.env[p] = args[i]
+		fr.set(p, args[i])
 	}
 	for i, fv := range fn.FreeVars {
-		fr.env[fv] = env[i]
+		fr.set(fv, env[i])
 	}
 	for fr.block != nil {
 		runFrame(fr)
@@ -569,6 +590,9 @@ func callSSA(i *interpreter, caller *frame, callpos token.Pos, fn *ssa.Function,
 	// Destroy the locals to avoid accidental use after return.
 	for i := range fn.Locals {
 		fr.locals[i] = bad{}
+	}
+	if fr.info.n >= 64 {
+		i.envPool[fn] = append(i.envPool[fn], fr.env)
 	}
 	return fr.result
 }
@@ -664,7 +688,7 @@ func executePhis(fr *frame) []ssa.Instruction {
 			fr.phitemps = append(fr.phitemps, fr.get(phi.Edges[predIndex]))
 		}
 		for i, phi := range phis {
-			fr.env[phi.(*ssa.Phi)] = fr.phitemps[i]
+			fr.set(phi.(*ssa.Phi), fr.phitemps[i])
 		}
 	}
 	return nonPhis
@@ -722,4 +746,51 @@ func (i *interpreter) targetStackFrom(fr *frame) string {
 		n++
 	}
 	return sb.String()
+}
+
+// fnInfo numbers the SSA values of a function so that frames can keep them in
+// a slice (built once per function, read-only afterwards).
+type fnInfo struct {
+	index map[ssa.Value]int
+	n     int
+}
+
+var fnInfos sync.Map // *ssa.Function -> *fnInfo
+
+func infoOf(fn *ssa.Function) *fnInfo {
+	if v, ok := fnInfos.Load(fn); ok {
+		return v.(*fnInfo)
+	}
+	fi := &fnInfo{index: map[ssa.Value]int{}}
+	add := func(v ssa.Value) {
+		if _, ok := fi.index[v]; !ok {
+			fi.index[v] = fi.n
+			fi.n++
+		}
+	}
+	for _, p := range fn.Params {
+		add(p)
+	}
+	for _, fv := range fn.FreeVars {
+		add(fv)
+	}
+	for _, l := range fn.Locals {
+		add(l)
+	}
+	for _, b := range fn.Blocks {
+		for _, in := range b.Instrs {
+			if v, ok := in.(ssa.Value); ok {
+				add(v)
+			}
+		}
+	}
+	if os.Getenv("SYMGO_DEBUG") == "3" && fi.n > 1000 {
+		fmt.Fprintf(os.Stderr, "fnInfo %s: %d values\n", fn.String(), fi.n)
+	}
+	v, _ := fnInfos.LoadOrStore(fn, fi)
+	return v.(*fnInfo)
+}
+
+func (fr *frame) set(key ssa.Value, v value) {
+	fr.env[fr.info.index[key]] = v
 }
